@@ -18,7 +18,7 @@ EXPLANATION = ("(a) nonMarkov_directed_percolate_network with SYMBOLIC xi[u], ze
 BOUNDS = {'quick': 'all digraphs on <=3 nodes (up to isomorphism) for (b); G3 for (a),(c),(d)', 'thorough': 'all digraphs on <=4 nodes for (b); G3 + 4-node graphs otherwise'}
 ASSUMPTIONS = ['floats as reals', 'networkx component algorithms trusted (the reference uses its own reachability closure)']
 OPTS = {'quick': {'max_validate': 1, 'validate_every': 7}, 'thorough': {'max_validate': 1, 'validate_every': 97}}
-MUST_EVALUATE = {'quick': ['perc-edge-iff-rule', 'perc-same-nodes', 'PE-AR=reference', 'in-[0,1]', 'size=largest-component-fraction', 'estimator-uses-percolated-graph']}
+MUST_EVALUATE = {'quick': ['perc-edge-iff-rule', 'perc-same-nodes', 'percolation-same-nodes', 'percolation-edge-iff-rule', 'PE-AR=reference', 'in-[0,1]', 'size=largest-component-fraction', 'estimator-uses-percolated-graph']}
 VALIDATE = True
 
 
@@ -41,6 +41,9 @@ def configs(tier):
         if graphs.ALL[g][1]:
             out.append(dict(family='builder', entry='nonMarkov_directed_percolate_network', graph=g, rule='boolean', tags=['builder', g, 'boolean']))
         out.append(dict(family='size', entry='estimate_SIR_prob_size', graph=g, tags=['size', g]))
+        for weights in (True, False):
+            out.append(dict(family='timing-builder', entry='nonMarkov_directed_percolate_network_with_timing', graph=g, weights=weights,
+                            tags=['timing-builder', g, 'weights' if weights else 'no-weights']))
         for e in ('estimate_directed_SIR_prob_size', 'estimate_nonMarkov_SIR_prob_size', 'estimate_nonMarkov_SIR_prob_size_with_timing'):
             if e != 'estimate_nonMarkov_SIR_prob_size' and g == 'K3' and tier == 'quick':
                 continue
@@ -110,6 +113,9 @@ def run_path(h, cfg):
             return None
         check_answer(h, H, res)
         return {'res': [float(x) for x in res]}
+    if fam == 'timing-builder':
+        from checks import C11
+        return C11.run_perc(h, cfg)
     r = simruns.setup(dict(cfg, I0=[], R0=[]))
     if fam == 'builder':
         xi, zeta, table = {}, {}, {}
